@@ -76,7 +76,10 @@ class RealAllocator:
         return header_table(self.buf, self.H)
 
     def reset(self) -> None:
-        self.alloc.reset()
+        """Harness set-up between traces (NOT the reset() under test): zero the entry count directly in the header and
+        take a fresh ShmAllocator object, so that a broken reset() shows up as a clause, not as a harness failure."""
+        struct.pack_into("<I", self.buf, 16, 0)
+        self.alloc = self.S.ShmAllocator(self.buf, self.H + self.dbytes)
 
     def do_alloc(self, n: int) -> int:
         try:
@@ -88,6 +91,13 @@ class RealAllocator:
     def do_free(self, off: int) -> int:
         try:
             self.alloc.free(self.H + off)
+        except Exception:  # noqa: BLE001
+            return -2
+        return 0
+
+    def do_reset(self) -> int:
+        try:
+            self.alloc.reset()
         except Exception:  # noqa: BLE001
             return -2
         return 0
@@ -112,7 +122,9 @@ class PeerAllocators(RealAllocator):
         super().__init__(dbytes, max_allocs)
         S = self.S
         want = S.HEADER_SIZE + dbytes
-        self.peer = S.ShmSegment.attach(self.seg.name, self.seg.size, track=False)
+        # the size passed to attach() is only a hint (the kernel's size is authoritative): vary it
+        self.attach_hint = self.seg.size + [0, -1, 4096, -(self.seg.size - 1)][(dbytes // UNIT + (max_allocs or 0)) % 4]
+        self.peer = S.ShmSegment.attach(self.seg.name, self.attach_hint, track=False)
         self.peer_buf = self.peer.buf
         peer_alloc = self.peer.allocator if self.peer.size == want and self.seg.size == want else S.ShmAllocator(self.peer_buf, want)
         self.handles = {1: self.alloc, 2: peer_alloc}
@@ -122,9 +134,11 @@ class PeerAllocators(RealAllocator):
         self.alloc = self.handles[h]
 
     def reset(self) -> None:
-        # both handles start from the empty table, each through its own object
-        self.handles[1].reset()
-        self.handles[2].reset()
+        # both handles start from the empty table, each a fresh allocator object on its own mapping
+        struct.pack_into("<I", self.buf, 16, 0)
+        want = self.H + self.dbytes
+        self.handles = {1: self.S.ShmAllocator(self.buf, want), 2: self.S.ShmAllocator(self.peer_buf, want)}
+        self.alloc = self.handles[1]
 
     def table(self) -> list[dict]:
         t1 = header_table(self.buf, self.H)
@@ -172,6 +186,9 @@ def replay_path(ra, beh: list[dict], ctx: Ctx, drift: list) -> dict:
             n = last["n"] * UNIT
             ret = ra.do_alloc(n)
             want_ret = last["ret"] * UNIT if last["ret"] >= 0 else -1
+        elif last["op"] == "reset":
+            n, want_ret = 0, 0
+            ret = ra.do_reset()
         else:
             n = last["n"] * UNIT
             ret = ra.do_free(n)
@@ -313,7 +330,7 @@ def run_allocator(ctx: Ctx, wd) -> None:
     peer_leg(ctx, wd, drift)
 
     # ---- leg C: random long traces, arbitrary byte sizes, 1 MiB region
-    dbig, mbig = 1 << 20, 12
+    dbig, mbig = (1 << 20) - 37, 12      # an odd region size: nothing in the table arithmetic may assume alignment
     ntr, nops = (24, 50) if quick else (160, 120)
     ra = RealAllocator(dbig, mbig)
     rtraces = []
@@ -378,12 +395,15 @@ def peer_leg(ctx: Ctx, wd, drift: list) -> None:
 
 def random_trace(ra: RealAllocator, ctx: Ctx, nops: int, dbytes: int) -> dict:
     rng = ctx.rng
-    ra.alloc.reset()
+    ra.reset()
     evs = []
     pre: list[dict] = []
     for _ in range(nops):
         live = [e["off"] for e in pre]
-        if live and rng.random() < 0.42:
+        if live and rng.random() < 0.04:
+            ret = ra.do_reset()
+            op, n = "reset", 0
+        elif live and rng.random() < 0.42:
             off = rng.choice(live)
             ret = ra.do_free(off)
             op, n = "free", off
@@ -419,7 +439,7 @@ def limit_leg(ctx: Ctx, wd) -> None:
     dunits = real_max + 106
     ra = RealAllocator(dunits * UNIT, None)
     try:
-        ra.alloc.reset()
+        ra.reset()
         fill = []
         judged = None
         for k in range(real_max - 1):
@@ -464,6 +484,9 @@ def _cols(n: int, name_len: int = 24):
 
 def build_batch(shape: str, rows: str, rng) -> pa.RecordBatch:
     nrows = {"zero": 0, "one": 1, "many": rng.choice([257, 1000, 4096])}[rows]
+    if rows == "many" and (shape in ("wide_64", "wide_100", "wide_1000", "dict_top_wide")):
+        # keep rows x columns inside the segment (these used to come back "no fit" and were never written)
+        nrows = {"wide_64": 257, "wide_100": 257, "wide_1000": 40, "dict_top_wide": 257}[shape]
     ints = pa.array(list(range(nrows)), pa.int64())
 
     def int_batch(names, metadata=None, field_md=None):
@@ -479,6 +502,23 @@ def build_batch(shape: str, rows: str, rng) -> pa.RecordBatch:
         st = pa.array([{"x": i, "y": [str(i)] * (i % 3)} for i in range(nrows)],
                       pa.struct([("x", pa.int64()), ("y", pa.list_(pa.string()))]))
         return pa.RecordBatch.from_arrays([st, ints], names=["st", "i"])
+    if shape == "sliced":
+        big = max(nrows, 1) * 3 + 11
+        src = pa.RecordBatch.from_arrays([pa.array(list(range(big)), pa.int64()), pa.array([i % 3 == 0 for i in range(big)], pa.bool_()),
+                                          pa.array([("s%d" % i) * (i % 5) if i % 7 else None for i in range(big)], pa.string()),
+                                          pa.array([[i, i + 1] if i % 4 else None for i in range(big)], pa.list_(pa.int32()))],
+                                         names=["i", "flag", "s", "l"])
+        return src.slice(rng.choice([1, 3, 9]), nrows)      # offsets not byte-aligned for the bitmap columns
+    if shape == "mixed_types":
+        import datetime as _dt
+        import decimal as _dec
+        return pa.RecordBatch.from_arrays(
+            [pa.array([i % 2 == 0 for i in range(nrows)], pa.bool_()), pa.array([bytes([i % 256]) * 5 for i in range(nrows)], pa.binary(5)),
+             pa.array([_dec.Decimal(i) / 100 for i in range(nrows)], pa.decimal128(12, 2)),
+             pa.array([_dt.datetime(2020, 1, 1) + _dt.timedelta(seconds=i) for i in range(nrows)], pa.timestamp("us", tz="UTC")),
+             pa.array(["L" * (i % 9) for i in range(nrows)], pa.large_string()),
+             pa.array([None if i % 2 else float(i) for i in range(nrows)], pa.float32())],
+            names=["b", "fsb", "dec", "ts", "ls", "f"])
     if shape == "all_null":
         return pa.RecordBatch.from_arrays([pa.nulls(nrows, pa.int64()), pa.nulls(nrows, pa.string())], names=["a", "b"])
     if shape.startswith("wide_"):
@@ -540,6 +580,7 @@ def run_writes(ctx: Ctx) -> None:
                 batch = build_batch(c["shape"], c["rows"], ctx.rng)
                 # what the implementation requests for this batch (dry run on the empty segment)
                 seg.reset()
+                struct.pack_into("<I", seg.buf, 16, 0)
                 try:
                     dry = seg.allocate_and_write(batch)
                 except Exception:  # noqa: BLE001
@@ -553,6 +594,7 @@ def run_writes(ctx: Ctx) -> None:
                 need = t_dry[0]["len"]
                 seg.reset()
                 buf = seg.buf
+                struct.pack_into("<I", buf, 16, 0)       # set-up must not depend on the reset() under test
                 buf[H:size] = b"\xa5" * (size - H)
                 ra = seg.allocate_and_write(nb_a)
                 left = right = None
@@ -571,7 +613,15 @@ def run_writes(ctx: Ctx) -> None:
                         seg.allocator.allocate(filler)
                 before = bytes(buf[H:size])
                 try:
-                    res = seg.allocate_and_write(batch)
+                    if c["via"] == "maybe_write_to_shm":
+                        # the transport's entry point: returns a pointer batch whose metadata names the region
+                        pb, pcm = S.maybe_write_to_shm(batch, None, seg)
+                        if pcm is None or pcm.get(b"vgi_rpc.shm_offset") is None:
+                            res = None
+                        else:
+                            res = (int(pcm.get(b"vgi_rpc.shm_offset")), int(pcm.get(b"vgi_rpc.shm_length")))
+                    else:
+                        res = seg.allocate_and_write(batch)
                     result = "nofit" if res is None else "written"
                 except Exception as e:  # noqa: BLE001
                     res, result = None, "raised:" + type(e).__name__
@@ -655,6 +705,9 @@ def build_seq_batch(family: str, rows: str, level: str, rng, step: int) -> pa.Re
         n = max(nrows, 1) if not big else max(nrows, len(words))
         d = pa.array([words[i % len(words)] for i in range(n)], pa.string()).dictionary_encode()
         return pa.RecordBatch.from_arrays([d, pa.array(list(range(n)), pa.int64())], names=["d", "i"])
+    if family == "reuse":
+        n = 40 if not big else 700
+        return pa.RecordBatch.from_arrays([pa.array([step * 10000 + i for i in range(n + min(nrows, 50))], pa.int64())], names=["id"])
     if family == "rows_only":
         n = (nrows if not big else nrows * 20 + 500)
         return pa.RecordBatch.from_arrays([pa.array(list(range(n)), pa.int64()), pa.array([f"r{i}" for i in range(n)], pa.string())],
@@ -669,12 +722,17 @@ def run_sequence(ctx: Ctx, seg, size: int, c: dict, levels: list, v: int, nb_a: 
     H = S.HEADER_SIZE
     seg.reset()
     buf = seg.buf
+    struct.pack_into("<I", buf, 16, 0)
     buf[H:size] = b"\xa5" * (size - H)
     ra = seg.allocate_and_write(nb_a)
     if ra is None:
         raise MachineryError("neighbour batch does not fit")
     live = [(ra[0], header_table(buf, H)[0]["len"], nb_a)]     # (abs offset, allocation length, original batch)
     for step, level in enumerate(levels, start=1):
+        if c["shape"] == "reuse" and step == len(levels) and len(live) >= 2:
+            # reuse after free: the first batch of the chain is released; the hole is offered to the last write
+            off0, _, _ = live.pop(1)
+            seg.free(off0)
         batch = build_seq_batch(c["shape"], c["rows"], level, ctx.rng, step)
         before = bytes(buf[H:size])
         known = {(e["off"], e["len"]) for e in header_table(buf, H)}
